@@ -800,6 +800,35 @@ func runC15(c *Ctx) {
 				if isRefillCmp(pt, in, idx) {
 					decided = true
 				}
+				// the decision taken inside a local closure (refillIfDue := func() {…}; refillIfDue())
+				if cl, ok := in.(*ssa.Call); ok {
+					if sc := cl.Call.StaticCallee(); sc != nil && sc.Parent() != nil && pt.indexOf(cl) == idx && helperCallee(cl) == nil {
+						instrsOf(sc, func(x ssa.Instruction) {
+							b, ok := x.(*ssa.BinOp)
+							if !ok {
+								return
+							}
+							switch b.Op {
+							case token.LSS, token.LEQ, token.GTR, token.GEQ:
+							default:
+								return
+							}
+							hasElapsed, hasMin := false, false
+							for _, sd := range []ssa.Value{b.X, b.Y} {
+								v := strip(sd)
+								if c2, ok := v.(*ssa.Call); ok && (callName(c2) == "time.Since" || callName(c2) == "(time.Time).Sub") {
+									hasElapsed = true
+								}
+								if fr, ok := asFieldLoad(v); ok && fr.SName == T && v.Type().String() == "time.Duration" {
+									hasMin = true
+								}
+							}
+							if hasElapsed && hasMin {
+								decided = true
+							}
+						})
+					}
+				}
 				if cl, ok := in.(*ssa.Call); ok && cl.Call.StaticCallee() == drain {
 					nServed++
 					if !decided && !failed9[in] {
